@@ -1,2 +1,77 @@
-From SV Require Import model.Queue.
-Theorem placeholder12 : True. Proof. exact I. Qed.
+(* C12 - a queued message is attempted when due, never early, and never forgotten.
+   Statements only; the model is model/Queue.v (transition system of slimta.queue.Queue at
+   yield-point granularity; a schedule = list of events, so "forall es" quantifies over all
+   interleavings, relay outcome histories, backoff answers and clock behaviours). *)
+From Coq Require Import List NArith Bool.
+From SV Require Import model.Queue proof.Queue_base proof.Queue_T proof.Queue_W proof.Queue_E proof.Queue_L proof.Queue_examples.
+Import ListNotations.
+Open Scope N_scope.
+
+(* Never forgotten: in EVERY reachable state (any schedule, no assumption on the environment)
+   every stored message is in the timetable or has a greenlet working on it: its enqueue() is
+   in progress, a delivery attempt or its retry bookkeeping is in progress, a dispatched
+   read of it is pending, or its removal is pending. *)
+Theorem C12_not_forgotten : forall es i,
+  let s := run es init in
+  st_get (s_store s) i <> None ->
+  In i (qids_of (s_queued s)) \/ In i (all_ids (s_tasks s)).
+Proof. exact not_forgotten. Qed.
+Print Assumptions C12_not_forgotten.
+
+(* ... and with fair storage announcements and the relay contract: a stored message nobody is
+   working on is in the timetable (scheduled). *)
+Theorem C12_idle_message_is_scheduled : forall es i, ok_run es init ->
+  let s := run es init in
+  st_get (s_store s) i <> None -> ~ In i (all_ids (s_tasks s)) -> In i (qids_of (s_queued s)).
+Proof. exact stored_idle_is_queued. Qed.
+Print Assumptions C12_idle_message_is_scheduled.
+
+(* Never early: every attempt caused by a timetable entry started at a clock value at or
+   after that entry's due time. *)
+Theorem C12_never_early : forall es a due,
+  In a (g_atts (run es init)) -> a_cause a = CTimer due -> due <= a_now a.
+Proof. exact never_early. Qed.
+Print Assumptions C12_never_early.
+
+(* the due time of a re-queued message is the clock value when backoff answered plus its answer *)
+Theorem C12_retry_time_from_backoff : forall s i snd rcpts dl w l1 l2,
+  s_tasks s = l1 ++ TRetry1 i snd rcpts dl :: l2 -> (forall t, In t l1 -> is_retry i t = false) ->
+  st_get (s_store s) i <> None ->
+  In (TRetry2 i rcpts dl (s_clock s + w)) (s_tasks (step s (EStep i (Some w)))).
+Proof. exact retry_time_from_backoff. Qed.
+Print Assumptions C12_retry_time_from_backoff.
+
+(* Attempted when due, part 1 (no lost wake-up): whenever an entry is due the scheduler loop
+   is running, already notified, or its wait has expired (EWakeup is enabled). *)
+Theorem C12_due_wakes_scheduler : forall es ts i,
+  let s := run es init in
+  In (ts, i) (s_queued s) -> ts <= s_clock s ->
+  match s_sched s with
+  | SWait None => False
+  | SWait (Some t) => t <= s_clock s
+  | _ => True
+  end.
+Proof. exact due_wakes. Qed.
+Print Assumptions C12_due_wakes_scheduler.
+
+(* part 2: one iteration of the running scheduler dispatches every due entry *)
+Theorem C12_tick_dispatches_due : forall es ts i,
+  let s := run es init in
+  s_sched s = SRun -> In (ts, i) (s_queued s) -> ts <= s_clock s ->
+  let s' := step s ETick in
+  ~ In (ts, i) (s_queued s') /\ mem i (s_active s') = true.
+Proof. exact tick_dispatches_due. Qed.
+Print Assumptions C12_tick_dispatches_due.
+
+(* the timetable stays sorted, which is what makes the scheduler's "due prefix" complete *)
+Theorem C12_timetable_sorted : forall es, sorted (s_queued (run es init)).
+Proof. intro es. exact (proj1 (run_W es init init_W)). Qed.
+Print Assumptions C12_timetable_sorted.
+
+(* flush() is one atomic step (it does not wait for the scheduler loop) that empties the
+   timetable and dispatches every waiting message at once *)
+Theorem C12_flush_attempts_all : forall s,
+  let s' := step s EFlush in
+  s_queued s' = [] /\ s_qids s' = [] /\ forall e, In e (s_queued s) -> mem (snd e) (s_active s') = true.
+Proof. exact flush_attempts_all. Qed.
+Print Assumptions C12_flush_attempts_all.
